@@ -21,6 +21,9 @@
        A call that panics keeps what it has written until then (status 2, no result); all objects are
        recorded after EVERY call, whatever its outcome.
        The call codes are the table [call_of] below (mirrored in harness/c16.go).
+       a >= 100 (a - 100 = the number of the nested []any): a FLOAT program — s and t are []float64, every cell
+       and value is the code of a float64 ([fl_ops] in C16_ModelF.v), the calls are those of [fcall_of]
+       (codes 200-256, mirrored in harness/c16float.go); same observation, same agreement, same judgement.
 
    observation, per call k:  status (0 ok | 2 panic) ; enc_zss R_k (when ok: what the
        call returned, every slice/map of it as one list; maps sorted by key) ;
@@ -46,7 +49,7 @@
        target (Drop, Chunk, the in-place helpers' own return values,
        collections of references to the argument maps). *)
 
-From Gogu Require Import Base C14_Model C14_Wire SliceMem C16_Model.
+From Gogu Require Import Base C14_Model C14_Wire SliceMem C16_Model C16_ModelF.
 Local Open Scope Z_scope.
 
 Definition sent (id i : nat) : Z := - (1000 * (Z.of_nat id + 1) + Z.of_nat i).
@@ -232,11 +235,106 @@ Definition call_of (nL nC : nat) (a : Z) (fn x y : Z) (s t : slice) : M (list rr
   | _ => ret []                      (* not a call: the harness does nothing either *)
   end.
 
+(* ---------- float programs (a >= 100 on the wire): s and t are []float64 ----------
+
+   The cells of s, t (and every value on the wire) are CODES of float64 values ([fl_ops] in C16_ModelF.v:
+   an integer = that float64, 2^59 = -0, 2^60 = NaN, +-2^61 = +-Inf); the sentinels are the floats
+   -1000, -1001, ...; `lists` is the caller's [][]float64 and `anys` a nested []any over []float64 / float64.
+   Only the calls of this table exist in a float program (and none of them in an int program). *)
+
+(* callbacks on float64 *)
+Definition fpred (c a : Z) : Z -> bool :=
+  match c with
+  | 0 => fun v => negb (fl_eq v v)          (* v != v *)
+  | 1 => fun v => fl_lt v a
+  | 2 => fun v => fl_eq v a
+  | 3 => fun v => fl_gt v a
+  | 4 => fun _ => true
+  | 5 => fl_in_range 0 a                     (* gogu.InRange(v, 0, a) *)
+  | _ => fun _ => false
+  end.
+Definition ffun (c : Z) : Z -> Z :=
+  match c with
+  | 1 => fl_neg                              (* -v *)
+  | 2 => fun v => fl_add v 1
+  | 3 => fun _ => c_nan
+  | 4 => fl_abs                              (* gogu.Abs *)
+  | 5 => fl_clamp (-1) 1                     (* gogu.Clamp(v, -1, 1) *)
+  | _ => fun v => v
+  end.
+Definition fcmp_of (x : Z) : Z -> Z -> bool := match x with 0 => fl_lt | _ => fl_gt end.
+
+Definition fcall_of (nL nC : nat) (a : Z) (fn x y : Z) (s t : slice) : M (list rref) :=
+  let R := run_fcall slack0 fl_ops in
+  let O c := run_fcall slack0 fl_ops (FOld c) in
+  let tbl := tbl_of s t in
+  let atbl := atbl_of s t in
+  let p := fpred x y in
+  let f := ffun x in
+  match fn with
+  | 200 => R (FSum s)
+  | 201 => R (FSumBy f s)
+  | 202 => R (FMean s)
+  | 203 => R (FIndexOf s y)
+  | 204 => R (FLastIndexOf s y)
+  | 205 => R (FContains s y)
+  | 206 => R (FFindMin s)
+  | 207 => R (FFindMinBy f s)
+  | 208 => R (FFindMax s)
+  | 209 => R (FFindMaxBy f s)
+  | 210 => R (FMin s)
+  | 211 => R (FMax s)
+  | 212 => R (FUnique s)
+  | 213 => R (FUniqueBy f s)
+  | 214 => R (FDuplicate s)
+  | 215 => R (FDuplicateWithIndex s)
+  | 216 => bind (alloc [0; 1]) (fun i => R (FUnion flat_fuel atbl (AList (mkSlice i 0 2 2))))
+  | 217 => with_args [0; 1] (fun ps => R (FIntersection tbl ps))
+  | 218 => with_args [0; 1] (fun ps => R (FIntersectionBy f tbl ps))
+  | 219 => R (FWithout s t)
+  | 220 => R (FDifference s t)
+  | 221 => R (FDifferenceBy f s t)
+  | 222 => with_args [1; 0] (fun ps => R (FIntersection tbl ps))
+  | 223 => R (FDifference t s)
+  | 224 => R (FWithout t s)
+  | 225 => R (FFindMin t)
+  | 226 => R (FFindMax t)
+  | 230 => O (HFilter p s)
+  | 231 => O (HReject p s)
+  | 232 => O (HReverse s)
+  | 233 => O (HDrop s x)
+  | 234 => O (HChunk s x)
+  | 235 => O (HMap f s)
+  | 236 => with_args [1] (fun ps => O (HMerge s tbl ps))
+  | 237 => O (HPartition p s)
+  | 238 => O (HFromSlice (fcmp_of x) s)
+  | 239 => O (HSort (fcmp_of x) s)
+  | 240 => O (HReduce fl_add 0 s)
+  | 241 => O (HEvery p s)
+  | 242 => O (HSome p s)
+  | 243 => O (HFindIndex p s)
+  | 244 => O (HFindLastIndex p s)
+  | 245 => O (HDropWhile p s)
+  | 246 => O (HDropRightWhile p s)
+  | 247 => O (HReject p t)
+  | 248 => O (HReverse t)
+  | 249 => O (HFindAll p s)
+  | 250 => O (HToSlice s)
+  | 251 => O (HNth s y)
+  | 252 => sub_lists nL x y (fun ps => O (HMerge s tbl ps))
+  | 253 => O (HFlatten flat_fuel atbl (AList (any_root a)))
+  | 254 => R (FUnion flat_fuel atbl (AList (any_root a)))
+  | 255 => sub_lists nL x y (fun ps => R (FIntersection tbl ps))
+  | 256 => O (HShuffle [] s)
+  | _ => ret []
+  end.
+
+
 (* the object an in-place call may change: 0/1 = backing array of s/t (inside the window), 2/3 = map0/map1 (removals) *)
 Definition ip_target (fn : Z) : option nat :=
   match fn with
-  | 5 | 6 | 19 | 20 => Some 0%nat
-  | 40 | 41 => Some 1%nat
+  | 5 | 6 | 19 | 20 | 231 | 232 | 238 | 239 => Some 0%nat
+  | 40 | 41 | 247 | 248 => Some 1%nat
   | 106 | 107 => Some 2%nat
   | 127 => Some 3%nat
   | _ => None
@@ -245,8 +343,8 @@ Definition ip_target (fn : Z) : option nat :=
 (* does what call fn returned refer to object k (so that it follows an in-place change of k)? *)
 Definition views (fn : Z) (k : nat) : bool :=
   match fn, k with
-  | (5 | 6 | 7 | 8 | 19), 0%nat => true
-  | (40 | 41), 1%nat => true
+  | (5 | 6 | 7 | 8 | 19 | 231 | 232 | 233 | 234 | 238), 0%nat => true
+  | (40 | 41 | 247 | 248), 1%nat => true
   | (106 | 107), 2%nat => true
   | 127, 3%nat => true
   | (120 | 122), (2%nat | 3%nat) => true
@@ -255,10 +353,10 @@ Definition views (fn : Z) (k : nat) : bool :=
 
 (* Go leaves the value of the result open: it is taken from the observation *)
 Definition value_free (fn : Z) : bool :=
-  match fn with 23 | 109 | 110 | 112 | 113 | 115 => true | _ => false end.
+  match fn with 23 | 109 | 110 | 112 | 113 | 115 | 256 => true | _ => false end.
 (* the result is compared sorted (the harness sorts it: map iteration order) *)
 Definition value_sorted (fn : Z) : bool :=
-  match fn with 24 | 101 | 102 | 123 => true | _ => false end.
+  match fn with 24 | 101 | 102 | 123 | 214 => true | _ => false end.
 
 (* ---------- reading references ---------- *)
 
@@ -326,7 +424,8 @@ Definition enc_rec (r : orec) : list Z :=
 (* ---------- decoded programs ---------- *)
 
 Record prog := mkP { p_pre : nat; p_spare : nat; p_es : list Z; p_tpre : nat; p_tspare : nat; p_et : list Z;
-                     p_m0 : amap; p_m1 : amap; p_L : list Z; p_C : list Z; p_A : Z; p_calls : list (list Z) }.
+                     p_m0 : amap; p_m1 : amap; p_L : list Z; p_C : list Z; p_A : Z; p_calls : list (list Z);
+                     p_F : bool (* a float program: s, t are []float64, cells are float codes *) }.
 
 Definition calls_ok (cs : list (list Z)) : bool :=
   forallb (fun c => Nat.eqb (length c) 3) cs && (Nat.leb (length cs) 4).
@@ -354,8 +453,10 @@ Definition decode (w : list Z) : option prog :=
                           | Some (lC, a :: w7) =>
                               let cs := chunks 3 w7 in
                               if calls_ok cs && forallb (fun c => (0 <=? c) && (c <? sent_code)) lL
-                                 && forallb (fun c => (0 <=? c) && (c <=? 1)) lC && (0 <=? a) && (a <=? 9)
-                              then Some (mkP pre spare es tpre tspare et (canon_map l0) (canon_map l1) lL lC a cs) else None
+                                 && forallb (fun c => (0 <=? c) && (c <=? 1)) lC
+                                 && (((0 <=? a) && (a <=? 9)) || ((100 <=? a) && (a <=? 109)))
+                              then Some (mkP pre spare es tpre tspare et (canon_map l0) (canon_map l1) lL lC
+                                             (if 100 <=? a then a - 100 else a) cs (100 <=? a)) else None
                           | Some (_, []) => None
                           | None => None
                           end
@@ -409,7 +510,7 @@ Definition world (b0 b1 m0 m1 : list Z) (L C : list Z) (a : Z) : mem :=
    sent_code :: root ++ [sent_code]; sub1; sub2].
 
 (* run the calls; [oracles] = the observed (status, result) of each call, used only for [value_free] results *)
-Fixpoint run_calls (nL nC : nat) (a : Z) (s t : slice) (calls : list (list Z)) (oracles : list (Z * list (list Z)))
+Fixpoint run_calls (isf : bool) (nL nC : nat) (a : Z) (s t : slice) (calls : list (list Z)) (oracles : list (Z * list (list Z)))
                    (m : mem) (prev : list (Z * list rref)) : list orec :=
   match calls with
   | [] => []
@@ -417,13 +518,13 @@ Fixpoint run_calls (nL nC : nat) (a : Z) (s t : slice) (calls : list (list Z)) (
       let fn := zget c 0 in
       let oracle := hd (0, []) oracles in
       let '(st, R, m') :=
-          match call_of nL nC a fn (zget c 1) (zget c 2) s t m with
+          match (if isf then fcall_of else call_of) nL nC a fn (zget c 1) (zget c 2) s t m with
           | (Some R, m') => (0, (if value_free fn then map RV (snd oracle) else canon_refs fn R), m')
           | (None, m') => (2, [], m')          (* a panic: what was written before it stays written *)
           end in
       mkRec st (read_result fn m' R) (backings s t m')
             (map (fun fr => read_result (fst fr) m' (snd fr)) prev)
-      :: run_calls nL nC a s t calls' (tl oracles) m' (prev ++ [(fn, R)])
+      :: run_calls isf nL nC a s t calls' (tl oracles) m' (prev ++ [(fn, R)])
   end.
 
 Definition slice_s (p : prog) : slice := mkSlice 0 (p_pre p) (length (p_es p)) (length (p_es p) + p_spare p).
@@ -432,7 +533,7 @@ Definition slice_t (p : prog) : slice := mkSlice 1 (p_tpre p) (length (p_et p)) 
 Definition recs (p : prog) (oracles : list (Z * list (list Z))) : list orec :=
   let m0 : mem := world (backing 0 (p_pre p) (p_es p) (p_spare p)) (backing 1 (p_tpre p) (p_et p) (p_tspare p))
                         (kvflat (p_m0 p)) (kvflat (p_m1 p)) (p_L p) (p_C p) (p_A p) in
-  run_calls (length (p_L p)) (length (p_C p)) (p_A p) (slice_s p) (slice_t p) (p_calls p) oracles m0 [].
+  run_calls (p_F p) (length (p_L p)) (length (p_C p)) (p_A p) (slice_s p) (slice_t p) (p_calls p) oracles m0 [].
 
 (* ---------- run / agree ---------- *)
 
